@@ -512,7 +512,7 @@ def run(P, R, tier):
     relay_capacity(P, R)
     # an account stamp "for this instance": instances are told apart by a serial that must not repeat
     from . import c04
-    c04.serial_writers(P, Remap(R, {'C04.WMC.2': 'C05.WMC.3'}))
+    c04.serial_writers(P, Remap(R, {'C04.WMC.2': 'C05.WMC.3'}), c04.reader_is_canonical(P))
     # the class reported with the verdict depends on how the class rules read the account stamp
     from . import c11
     c11.matcher(P, Remap(R, {'C11.FMT.1': 'C05.FMT.2', 'C11.GRD.2': 'C05.GRD.2', 'C11.GRD.3': 'C05.GRD.2'}))
